@@ -711,8 +711,11 @@ dt_io_strpdtdur(struct __strpdtdur_st_s *st, const char *str)
 	while (1) {
 		switch (*sp++) {
 		case '\0':
+			/* nothing but signs and prefixes,
+			 * SP is past the terminator already, go back there
+			 * so we don't peek behind the string further down */
 			res = -1;
-			ep = sp;
+			ep = --sp;
 			goto out;
 		case '+':
 			st->sign = 1;
